@@ -7,37 +7,38 @@ import monitors as M
 P = V.proj_fields
 
 # slices: (profile, kind, programs_quick, programs_thorough, length_quick, length_thorough)
-KV = ("kv", "mem", 40, 400, 30, 60)
-KVD = ("kv", "disk", 12, 120, 30, 60)
-FEEDS = ("feeds", "mem", 25, 250, 25, 50)
-FEEDSD = ("feeds", "disk", 8, 80, 25, 50)
-MULTI = ("multi", "mem", 15, 150, 25, 50)
-MULTID = ("multi", "disk", 5, 50, 25, 50)
+KV = ("kv", "mem", 100, 400, 30, 60)
+KVD = ("kv", "disk", 30, 120, 30, 60)
+FEEDS = ("feeds", "mem", 60, 250, 25, 50)
+FEEDSD = ("feeds", "disk", 20, 80, 25, 50)
+MULTI = ("multi", "mem", 40, 150, 25, 50)
+MULTID = ("multi", "disk", 12, 50, 25, 50)
 
-CLOCK = ("clock", "mem", 30, 300, 40, 80)
-CLOCKD = ("clock", "disk", 15, 150, 40, 80)
+CLOCK = ("clock", "mem", 60, 300, 40, 80)
+CLOCKD = ("clock", "disk", 30, 150, 40, 80)
 
-EXPIRY = ("expiry", "mem", 25, 250, 25, 50)
-EXPIRYD = ("expiry", "disk", 10, 100, 25, 50)
+EXPIRY = ("expiry", "mem", 50, 250, 25, 50)
+EXPIRYD = ("expiry", "disk", 20, 100, 25, 50)
 
-SUBDOC = ("subdoc", "mem", 40, 400, 40, 80)
-SUBDOCD = ("subdoc", "disk", 12, 120, 40, 80)
+SUBDOC = ("subdoc", "mem", 100, 400, 40, 80)
+SUBDOCD = ("subdoc", "disk", 30, 120, 40, 80)
 
-REG = ("reg", "mem", 60, 600, 30, 60)
+REG = ("reg", "mem", 150, 600, 30, 60)
 
-QUERY = ("query", "mem", 25, 250, 30, 60)
-QUERYD = ("query", "disk", 10, 100, 30, 60)
+QUERY = ("query", "mem", 60, 250, 30, 60)
+QUERYD = ("query", "disk", 25, 100, 30, 60)
 
-RESUME = ("resume", "mem", 25, 250, 40, 80)
-RESUMED = ("resume", "disk", 8, 80, 40, 80)
+RESUME = ("resume", "mem", 60, 250, 40, 80)
+RESUMED = ("resume", "disk", 20, 80, 40, 80)
 
-VIEW = ("view", "mem", 30, 300, 60, 120)
-VIEWD = ("view", "disk", 12, 120, 60, 120)
-VIEWM = ("viewmeta", "mem", 20, 200, 60, 120)
-VIEWMD = ("viewmeta", "disk", 8, 80, 60, 120)
+VIEW = ("view", "mem", 50, 300, 60, 120)
+VIEWD = ("view", "disk", 20, 120, 60, 120)
+VIEWM = ("viewmeta", "mem", 30, 200, 60, 120)
+VIEWMD = ("viewmeta", "disk", 12, 80, 60, 120)
 
-LIFE = ("life", "mem", 40, 600, 10, 14)
-LIFED = ("life", "disk", 25, 300, 10, 14)
+LIFE = ("life", "mem", 120, 600, 14, 18)
+LIFE_S = ("life", "mem", 40, 300, 10, 14)     # C20 uses the lifecycle histories only as a sequential background
+LIFED = ("life", "disk", 40, 300, 14, 18)
 
 
 def proj_life(op, res):
@@ -50,7 +51,7 @@ ROW = ["row", "row.v", "row.cas", "row.exp", "row.json", "row.x", "row.tomb", "r
 PROPS = {
     "C01": dict(modules=["Rosmar.Properties.C01"], slices=[KV, KVD, MULTI], proj=V.proj_all,
                 what="every read after every operation (raw row + every public read), every result"),
-    "C02": dict(modules=["Rosmar.Properties.C02"], slices=[KV, KVD],
+    "C02": dict(modules=["Rosmar.Properties.C02"], slices=[KV, KVD, SUBDOC],
                 proj=P(rb=ROW, results=True, ops={"wcas", "remove", "wwx", "wtx", "updx", "rmx", "uxdb", "swm", "dwm", "update", "wuwx"}),
                 what="results of CAS-conditional writes and the row before/after"),
     "C04": dict(modules=["Rosmar.Properties.C04", "Rosmar.Gen.Tie"], slices=[CLOCK, CLOCKD, KV],
@@ -111,7 +112,7 @@ PROPS = {
                      "functions (by id, by a body property of any JSON type, array keys from a loop, by an xattr) x reduce (_count, _sum) with "
                      "random key / range / inclusive_end / keys / descending / limit / reduce / group / group_level / stale parameters at "
                      "random positions; results compared with the model and with an independent oracle (lib/viewspec.py) over the KV read-back"),
-    "C20": dict(modules=["Rosmar.Properties.C20"], note_modules=["Rosmar.Properties.C20Known"], slices=[LIFE, LIFED], proj=proj_life,
+    "C20": dict(modules=["Rosmar.Properties.C20"], note_modules=["Rosmar.Properties.C20Known"], slices=[LIFE_S], proj=proj_life,
                 what="forced schedules placing Close / CloseAndDelete / DropDataStore against a writer (at every instrumentation point of a "
                      "write), a feed start, a feed delivery and the expiry-timer callback, on both bucket kinds, each in its own child process "
                      "(panic, hang, leaked feed goroutine, unrelated bucket still usable), compared with the shutdown model's verdict; the "
